@@ -87,8 +87,19 @@ class RecomputingDict(MutableMapping[RuleKey, AbstractStrategy]):
         if self._flatten(key) not in self.rules:
             raise KeyError(key)
         possible_labels = (key[0],) + key[1]
-        strats = itertools.chain([EmptyStrategy()], self.pack)
-        for label, strat in itertools.product(possible_labels, strats):
+        strats = [EmptyStrategy(), *self.pack]
+        # A factory may have produced the rule for another class than the one it was
+        # applied to: when the classes of the key do not give the rule back, replay
+        # the pack on every other class the searcher has seen.
+        other_labels = (
+            label
+            for label in range(len(self.classdb.label_to_info))
+            if label not in possible_labels
+        )
+        for label, strat in itertools.chain(
+            itertools.product(possible_labels, strats),
+            ((label, strat) for label in other_labels for strat in strats),
+        ):
             comb_class = self.classdb.get_class(label)
             if isinstance(strat, StrategyFactory):
                 strats_or_rules: Iterable[Union[AbstractRule, AbstractStrategy]] = (
